@@ -241,3 +241,235 @@ mod join {
     }
 
 }
+
+/// C05 / C08 / C09 / C12: bounded Kani checks (K2) of the op implementations Verus cannot ingest (closures capturing `&mut`,
+/// `.iter().copied()`, generic `IntoIterator` loops), driven through the public dispatchers of the real compiled crate.
+/// Concrete stack / memory shapes, fully symbolic words. Expectations are written from asm.yml, not from the code.
+#[cfg(kani)]
+mod ops {
+    use essential_vm::error::{OpError, StackError, TotalControlFlowError};
+    use essential_vm::{asm, sync, Memory, Repeat, Stack};
+
+    fn words<const N: usize>() -> [i64; N] {
+        kani::any()
+    }
+    fn stack_of(ws: &[i64]) -> Stack {
+        let mut s = Stack::default();
+        let mut i = 0;
+        while i < ws.len() {
+            s.push(ws[i]).unwrap();
+            i += 1;
+        }
+        s
+    }
+    fn same(s: &[i64], want: &[i64]) {
+        assert!(s.len() == want.len());
+        let mut i = 0;
+        while i < want.len() {
+            assert!(s[i] == want[i]);
+            i += 1;
+        }
+    }
+
+    /// Select: `[.., a, b, cond]` -> `[.., b]` if cond == 1, `[.., a]` if cond == 0, error otherwise; error when fewer than 3 words.
+    fn check_select<const N: usize>() {
+        let ws: [i64; N] = words();
+        let mut st = stack_of(&ws);
+        let mut rep = Repeat::new();
+        let pc: usize = kani::any();
+        let r = sync::step_op_stack(asm::Stack::Select, pc, &mut st, &mut rep);
+        if N < 3 {
+            assert!(r.is_err());
+        } else {
+            let (a, b, c) = (ws[N - 3], ws[N - 2], ws[N - 1]);
+            if c == 0 || c == 1 {
+                assert!(matches!(r, Ok(None)));
+                assert!(st.len() == N - 2);
+                let mut i = 0;
+                while i + 3 < N {
+                    assert!(st[i] == ws[i]);
+                    i += 1;
+                }
+                assert!(st[N - 3] == if c == 1 { b } else { a });
+            } else {
+                assert!(matches!(r, Err(OpError::Stack(StackError::InvalidCondition(w))) if w == c));
+            }
+        }
+        core::mem::forget(r);
+        core::mem::forget(st);
+    }
+    #[kani::proof]
+    #[kani::unwind(8)]
+    fn select_len_2() {
+        check_select::<2>();
+    }
+    #[kani::proof]
+    #[kani::unwind(8)]
+    fn select_len_3() {
+        check_select::<3>();
+    }
+    #[kani::proof]
+    #[kani::unwind(8)]
+    fn select_len_5() {
+        check_select::<5>();
+    }
+
+    /// StoreRange: `[.., v_0..v_{k-1}, k, addr]` stores the k words at memory[addr..addr+k], every other memory word and the
+    /// memory length unchanged, operands popped; error (and nothing stored) when k or addr is negative, k exceeds the stack
+    /// below the two operands, or addr + k exceeds the memory length.
+    fn check_store_range<const N: usize, const M: usize>() {
+        let ws: [i64; N] = words();
+        let ms: [i64; M] = words();
+        let mut st = stack_of(&ws);
+        let mut mem = Memory::try_from(ms.to_vec()).unwrap();
+        let r = sync::step_op_memory(asm::Memory::StoreRange, &mut st, &mut mem);
+        let addr = ws[N - 1];
+        let k = ws[N - 2];
+        let ok = k >= 0 && addr >= 0 && (k as u64) <= (N as u64 - 2) && (addr as u64) <= M as u64 && (addr as u64 + k as u64) <= M as u64;
+        if ok {
+            assert!(r.is_ok());
+            let (k, addr) = (k as usize, addr as usize);
+            assert!(st.len() == N - 2 - k);
+            let mut i = 0;
+            while i < N - 2 - k {
+                assert!(st[i] == ws[i]);
+                i += 1;
+            }
+            assert!(mem[..].len() == M);
+            let mut j = 0;
+            while j < M {
+                let want = if j >= addr && j < addr + k { ws[N - 2 - k + (j - addr)] } else { ms[j] };
+                assert!(mem[j] == want);
+                j += 1;
+            }
+        } else {
+            assert!(r.is_err());
+            // failing op leaves memory untouched
+            assert!(mem[..].len() == M);
+            let mut j = 0;
+            while j < M {
+                assert!(mem[j] == ms[j]);
+                j += 1;
+            }
+        }
+        core::mem::forget(r);
+        core::mem::forget(st);
+        core::mem::forget(mem);
+    }
+    #[kani::proof]
+    #[kani::unwind(8)]
+    fn store_range_4_3() {
+        check_store_range::<4, 3>();
+    }
+    #[kani::proof]
+    #[kani::unwind(8)]
+    fn store_range_5_2() {
+        check_store_range::<5, 2>();
+    }
+    #[kani::proof]
+    #[kani::unwind(8)]
+    fn store_range_2_0() {
+        check_store_range::<2, 0>();
+    }
+
+    /// PanicIf: `[.., cond]`: cond == 0 continues with the operand popped, cond == 1 fails with Panic carrying the remaining stack,
+    /// any other word fails with InvalidPanicIfCondition.
+    fn check_panic_if<const N: usize>() {
+        let ws: [i64; N] = words();
+        let mut st = stack_of(&ws);
+        let pc: usize = kani::any();
+        let r = sync::step_op_total_control_flow(asm::TotalControlFlow::PanicIf, &mut st, pc);
+        if N == 0 {
+            assert!(r.is_err());
+        } else {
+            let c = ws[N - 1];
+            match &r {
+                Ok(None) => {
+                    assert!(c == 0);
+                    same(&st, &ws[..N - 1]);
+                }
+                Err(OpError::TotalControlFlow(TotalControlFlowError::Panic(s))) => {
+                    assert!(c == 1);
+                    same(s, &ws[..N - 1]);
+                }
+                Err(OpError::TotalControlFlow(TotalControlFlowError::InvalidPanicIfCondition)) => assert!(c != 0 && c != 1),
+                _ => assert!(false),
+            }
+        }
+        core::mem::forget(r);
+        core::mem::forget(st);
+    }
+    #[kani::proof]
+    #[kani::unwind(8)]
+    fn panic_if_len_0() {
+        check_panic_if::<0>();
+    }
+    #[kani::proof]
+    #[kani::unwind(8)]
+    fn panic_if_len_1() {
+        check_panic_if::<1>();
+    }
+    #[kani::proof]
+    #[kani::unwind(8)]
+    fn panic_if_len_4() {
+        check_panic_if::<4>();
+    }
+
+    /// Stack::extend: appends the yielded words in order (the limit behaviour is that of Stack::push, which is Verus-verified;
+    /// a harness at the 4096-word limit crashes CBMC 6.11 and is not part of the evidence).
+    #[kani::proof]
+    #[kani::unwind(8)]
+    fn extend_small() {
+        let ws: [i64; 2] = words();
+        let xs: [i64; 3] = words();
+        let mut st = stack_of(&ws);
+        let r = st.extend(xs);
+        assert!(r.is_ok());
+        assert!(st.len() == 5);
+        assert!(st[0] == ws[0] && st[1] == ws[1] && st[2] == xs[0] && st[3] == xs[1] && st[4] == xs[2]);
+        core::mem::forget(st);
+    }
+
+    /// PredicateData: `[.., slot_ix, value_ix, len]` pushes predicate_data[slot_ix][value_ix .. value_ix + len] of this solution
+    /// in order; error (operands popped, nothing pushed) for a negative or out-of-range slot, index or length.
+    /// Shape: one solution with two slots of 2 and 1 words.
+    #[kani::proof]
+    #[kani::unwind(8)]
+    fn predicate_data_2_slots() {
+        use essential_vm::types::{solution::Solution, ContentAddress, PredicateAddress};
+        use essential_vm::{Access, LazyCache};
+        let d0: [i64; 2] = words();
+        let d1: [i64; 1] = words();
+        let sol = Solution {
+            predicate_to_solve: PredicateAddress { contract: ContentAddress([0; 32]), predicate: ContentAddress([0; 32]) },
+            predicate_data: vec![d0.to_vec(), d1.to_vec()],
+            state_mutations: vec![],
+        };
+        let access = Access { solutions: std::sync::Arc::new(vec![sol]), index: 0 };
+        let ws: [i64; 4] = words();
+        let mut st = stack_of(&ws);
+        let mut rep = Repeat::new();
+        let cache = LazyCache::new();
+        let r = sync::step_op_access(access, asm::Access::PredicateData, &mut st, &mut rep, &cache);
+        let (slot, ix, len) = (ws[1], ws[2], ws[3]);
+        let slot_len: i64 = if slot == 0 { 2 } else { 1 };
+        let ok = (slot == 0 || slot == 1) && ix >= 0 && len >= 0 && ix <= slot_len && len <= slot_len - ix;
+        if ok {
+            assert!(r.is_ok());
+            assert!(st.len() == 1 + len as usize);
+            assert!(st[0] == ws[0]);
+            let mut k = 0usize;
+            while k < len as usize {
+                let want = if slot == 0 { d0[ix as usize + k] } else { d1[ix as usize + k] };
+                assert!(st[1 + k] == want);
+                k += 1;
+            }
+        } else {
+            assert!(r.is_err());
+            assert!(st.len() == 1 && st[0] == ws[0]);
+        }
+        core::mem::forget(r);
+        core::mem::forget(st);
+        core::mem::forget(cache);
+    }
+}
